@@ -70,7 +70,53 @@ def _prod_atom(sx, paths, what):
     per_elem = sx.ctx.show(args[0])
     if not per_elem.endswith('.master_gear_efficiency'):
         return None, f'the product runs over `{per_elem}`, not over master_gear_efficiency'
-    return a, ''
+    return a, _filter_problem(sx, f)
+
+
+def _filter_problem(sx, fname) -> str:
+    """eta_t is documented as the product over ALL matings of the chain: the filter of the product loop must let
+    through every concrete element class that carries a master_gear_efficiency (spur, helical, worm wheel AND worm gear -
+    a WormGear is not a SpurGear)"""
+    model = sx.model
+    elem, guards = sx.__dict__.get('reduction_filters', {}).get(fname, (None, None))
+    if guards is None:
+        return ''
+    # classes that can be the slave of a mating with losses: the `isinstance(slave, T)` admission tests of the relation
+    # functions that take an efficiency / a friction coefficient (a fixed joint always stores efficiency 1)
+    import ast
+    admitted = set()
+    for name, (mod_, fn) in model.functions.items():
+        params = {a.arg for a in fn.args.args}
+        if 'slave' in params and params & {'efficiency', 'friction_coefficient'}:
+            for n in ast.walk(fn):
+                if isinstance(n, ast.If) and n.body and isinstance(n.body[0], ast.Raise) and isinstance(n.test, ast.UnaryOp) \
+                        and isinstance(n.test.op, ast.Not) and isinstance(n.test.operand, ast.Call) \
+                        and ast.unparse(n.test.operand.func) == 'isinstance' and ast.unparse(n.test.operand.args[0]) == 'slave':
+                    for x in ast.walk(n.test.operand.args[1]):
+                        if isinstance(x, ast.Name) and x.id in model.classes:
+                            admitted.add(x.id)
+    carriers = sorted(c for c in model.subclasses('RotatingObject') if not model.is_abstract_class(c)
+                      and any(model.is_subclass(c, a) for a in admitted)
+                      and model.find_member(c, 'master_gear_efficiency') is not None)
+    if not carriers:
+        return 'no class admitted as the slave of a mating was found (relation functions not recognised)'
+    missing = []
+    for c in carriers:
+        ok = True
+        for g in guards:
+            if g.kind == 'isinstance' and g.key[0] == elem:
+                inside = any(model.is_subclass(c, k) for k in g.key[1])
+                ok = ok and (inside == g.pol)
+            elif g.kind == 'hasattr':
+                continue
+            else:
+                return ''        # a filter on something else than the class: not decided here
+        if not ok:
+            missing.append(c)
+    if missing:
+        return (f'the efficiency product skips {missing}: the documented eta_t is the product over all matings of the chain '
+                f'(a {missing[0]} that is the slave of a mating carries that mating\'s efficiency)')
+    return ''
 
 
 def check_pure(model, rep, sx):
@@ -137,6 +183,7 @@ def check_reach(model, rep, sx):
     if eta is None:
         rep.violation('C15.value', 'ReachAngularPosition.apply[static-error]', why, m.loc)
         return
+    rep.decide(not why, 'C15.value', 'ReachAngularPosition.apply[efficiency-product]', why, loc=m.loc)
     spec = SpecCtx(sx, cls, symbols={'th': 'self.__encoder.get_value()', 'thb': 'self.__braking_angle',
                                       'target': 'self.__target_angular_position',
                                       'Tl': 'self.__powertrain.elements[0].load_torque',
@@ -163,6 +210,7 @@ def check_proportional(model, rep, sx):
     if eta is None:
         rep.violation('C15.value', f'{cls}.apply[pwm-min]', why, m.loc)
         return
+    rep.decide(not why, 'C15.value', f'{cls}.apply[efficiency-product]', why, loc=m.loc)
     base = {'th': 'self.__encoder.get_value()', 'target': 'self.__target_angular_position',
             'g': 'self.__pwm_min_multiplier', 'p': 'self.__pwm_min',
             'Tmax': 'self.__powertrain.elements[0].maximum_torque',
